@@ -258,6 +258,18 @@ var c03Templates = []sim.Template{
 		sc = append(sc, act("oauth_start", b, -9, "", "provider", p), cb(), act("visit", b, -9, "", "route", "/protected/plain"))
 		return sc
 	}},
+	{Name: "locked-login-while-the-lock-modules-write-fails", F: func(s *sim.Sim) []*sim.Action {
+		if !s.Cfg.Has("lock") || !s.Cfg.Has("auth") {
+			return nil
+		}
+		v := findAcct(s, func(u *world.User) bool { return u.TOTPSecretKey == "" && u.SMSPhone == "" && u.Confirmed })
+		if v < 0 {
+			return nil
+		}
+		b := s.R.Intn(len(s.Br))
+		return []*sim.Action{act("admin_lock", b, v, ""), act("faultnext", b, -9, "", "op", "Save"), act("login", b, v, "ok"), act("visit", b, -9, "", "route", "/protected/lockonly"),
+			act("faultnext", b, -9, "", "op", pickS(s.R, "Save", "Load")), act("login", b, v, "ok"), act("visit", b, -9, "", "route", "/protected/plain")}
+	}},
 	{Name: "unconfirmed-every-path", F: func(s *sim.Sim) []*sim.Action {
 		if !s.Cfg.Has("confirm") {
 			return nil
